@@ -30,7 +30,21 @@ else:
     r = sh(f'git -C /repo worktree add --detach {target} HEAD')
     assert r.returncode == 0, r.stdout
 r = sh(f'git -C {target} apply {d}/patch.diff')
-assert r.returncode == 0, r.stdout
+if r.returncode != 0:
+    # /repo has moved on since the change was written (repairs in the same lines): try a three-way merge
+    r = sh(f'git -C {target} apply --3way {d}/patch.diff')
+if r.returncode != 0:
+    res['patch_applies'] = False
+    res['note'] = 'the change no longer applies to /repo HEAD (repairs since it was written touch the same lines): ' + r.stdout.strip().splitlines()[-1][:200]
+    if not inplace:
+        sh(f'git -C /repo worktree remove --force {target}')
+    else:
+        sh('git -C /repo checkout -- .')
+    old = json.loads((d / 'result.json').read_text()) if (d / 'result.json').exists() else {}
+    old['reapply'] = res
+    (d / 'result.json').write_text(json.dumps(old, indent=1))
+    print(json.dumps(res, indent=1))
+    sys.exit(0)
 penv = dict(os.environ, PYTHONPATH=f'{target}/src', exabgp_log_enable='false')
 try:
     if demo.exists():
